@@ -94,6 +94,9 @@ def histories(draw, big=False, want_logs=False, transports=('pty', 'pty', 'fd', 
             op = ['read', text, draw(st.sampled_from(['expect', 'rnb'])), draw(st.integers(0, 2)) == 0]
         else:
             op = ['send', draw(P)]
+        if draw(st.integers(0, 7)) == 0:
+            # a poll of the (silent) peer that times out, between the sends
+            op = ['poll', draw(st.sampled_from([0, 0, 0.01]))]
         if transport == 'pty' and not text_mode and not want_logs and draw(st.integers(0, 9)) == 0:
             # a payload far larger than the terminal queues, sent while signals arrive at the sending thread
             # and the peer is stopped now and then: os.write comes back short, send() reports how much went
@@ -292,6 +295,15 @@ def run_history(case, logs=None):
                         mo.control(byte)
                         if got != 1:
                             raise Violation('return-value', '%s(%r) returned %r, one byte is written' % (where, op[1], got))
+                elif kind == 'poll':
+                    try:
+                        d = child.read_nonblocking(1, timeout=op[1])
+                        if len(d):          # (PopenSpawn answers a poll that finds nothing with an empty string)
+                            raise Violation('read-differs', '%s: a poll of a silent peer returned %r' % (where, d))
+                    except TIMEOUT:
+                        pass
+                    except EOF:
+                        raise Violation('read-failed', '%s: EOF from a peer that is waiting for input' % where)
                 elif kind == 'send_storm':
                     data = storm_payload(op[1])
                     mo.send(data)
@@ -353,7 +365,7 @@ def check_case(case, col=None):
     for where, g, w, is_big in res['returns']:
         if g != w:
             raise Violation('return-value', '%s returned %r; %d bytes were written' % (where, g, w))
-    sends = [op for op in case['ops'] if op[0] not in ('read',)]
+    sends = [op for op in case['ops'] if op[0] not in ('read', 'poll')]
     nonascii = False
     bigp = False
     ctl_between = False
